@@ -121,6 +121,22 @@ def bad_close(drv, tier):
     return out if tier == "thorough" else out[::2]
 
 
+def long_sleep(drv, tier):
+    """a sequence that pauses for a long time between its commands (a second, a minute: waiting for a fade or an identify
+    to end) while other callers are queued: the pause belongs to the transaction, whatever its length"""
+    out = []
+    for ms in (1000, 2500, 60000) if tier == "quick" else (999, 1000, 1001, 2500, 10000, 60000):
+        for bstart in ({"writes": 1}, {"writes": 2}, {"time": 0.2}):
+            for plan in ([1] * 30, [-1]):
+                out.append({"driver": drv, "release_plan": list(plan), "outcomes": [["val", 11], ["none", 0], ["val", 99]],
+                            "callers": [{"name": "A", "mode": "sequence", "start": {"time": 0.0},
+                                         "unit": [["dapc", 1], ["sleep", ms], ["cfg", 2], ["sleep", ms], ["q16", 3]]},
+                                        {"name": "B", "mode": "send", "unit": [["qdt6", 9] if drv != "sci" else ["q16", 9]], "start": bstart},
+                                        {"name": "C", "mode": "sequence", "unit": [["q16", 17], ["dapc", 18]], "start": {"writes": 2}}],
+                            "horizon": 600, "tag": "long-sleep"})
+    return out
+
+
 def power_requests(tier):
     """Tridonic: a caller switching the interface's bus power supply while a sequence and a device-type command of other
     callers are under way -- the request is a unit of its own (it takes the transaction lock like a send)"""
@@ -169,6 +185,7 @@ def scenarios(tier, seed, drivers_=("tridonic", "hasseb", "luba", "sci")):
         scs += cancel_queued(drv, tier)
         scs += bad_close(drv, tier)
         scs += explicit_edt(drv, tier)
+        scs += long_sleep(drv, tier)
         if drv == "tridonic":
             scs += power_requests(tier)
     return scs
